@@ -32,7 +32,10 @@ PROPS["C01"]["modules"] += ["IclModel.Props.C01Rec", "IclModel.Props.C01Walk", "
 # the writer walk translated from writer.go = the record sequence the build / framing theorems speak about
 PROPS["C06"]["modules"] += ["IclModel.Props.C01Walk", "IclModel.Props.C06Build"]
 # Bundle.build translated from bundle.go = the build model the walk-completeness theorems speak about
-PROPS["C09"]["modules"] += ["IclModel.Props.C06Build"]
+PROPS["C09"]["modules"] += ["IclModel.Props.C06Build", "IclModel.Props.C06Create"]
+# File.Create translated from file.go = the model of the file-level tallies and of the walk that rebuilds every bundle
+PROPS["C06"]["modules"] += ["IclModel.Props.C06Create"]
+PROPS["C17"]["modules"] += ["IclModel.Props.C06Create"]
 PROPS["C08"]["modules"] += ["IclModel.Props.C01Walk"]
 
 
